@@ -475,6 +475,25 @@ func genComponent(r *hx.Run) {
 		}
 		return base, ones
 	}
+	// fixed corpus first: every kind of bad entry of a pairs file, one at a time, between two good lines
+	// (ports just outside 1..65535, negative ones that wrap into range as uint16, huge ones, no address)
+	for _, bp := range []int64{0, -1, -80, -65535, -65536, -65537, 65536, 65537, 70000, 131072 + 80, 1 << 31, -(1 << 31), 1<<32 + 443} {
+		for _, kind := range []string{"req-pkt", "req-gen", "pkt-tcp"} {
+			a := uint32(0x0a000010)
+			src := fmt.Sprintf("file:0:E,4,%d,80;E,4,%d,%d;E,-,%d;E,4,%d,81", a, a+1, bp, bp, a+2)
+			cache, gw := "none", "-"
+			if kind == "pkt-tcp" {
+				cache, gw = "-", "2199023255553"
+			}
+			ord := "O" // request order is the file order; frames come out of several workers
+			if kind == "pkt-tcp" {
+				ord = "S"
+			}
+			obs := runGen(kind, src, "-", "-", "none", cache, gw, ord)
+			r.Count("fixed-badport")
+			r.Case(kind+"/fixed-badport", "gen", kind, src, "-", "-", "none", cache, gw, ord, obs)
+		}
+	}
 	for i := 0; i < n; i++ {
 		kind := pick("req-pkt", "req-pkt", "req-gen", "pkt-tcp", "pkt-udp", "pkt-icmp", "pkt-arp")
 		var src, full, chunk string
@@ -527,7 +546,7 @@ func genComponent(r *hx.Run) {
 					classes = append(classes, "noaddr")
 				case bad && k <= 5 && pairs:
 					l.addr = fmt.Sprintf("4,%d", addrPool())
-					l.port = []int64{0, 65536, -1, 70000}[rng.Intn(4)]
+					l.port = []int64{0, 65536, -1, 70000, -80, -65456, 65537, -65535}[rng.Intn(8)]
 					classes = append(classes, "badport")
 				case v6ok && k == 6:
 					l.addr = fmt.Sprintf("6,%d", rng.Intn(3))
